@@ -23,7 +23,8 @@ def specs(rng, tier, count):
         dim = 1 + j % 3 if g == "plain" else None
         # anisotropy / rotation combinations are cycled (rotation-only first: isotropic models with angles)
         gm = [1, 0, 2, 3][(j // 3) % 4] if g == "plain" else [1, 0, 2, 3][j % 4]
-        out.append(KC.gen_spec(rng, variant=v, geo=g, dim=dim, tier=tier, mean_nonzero=(v == "Simple" and i % 2 == 0), geom_mode=gm, drift_mode=(j + 3), norm_class=KC.NORM_CLASSES[i % 6],
+        out.append(KC.gen_spec(rng, variant=v, geo=g, dim=dim, tier=tier, mean_nonzero=(v == "Simple" and i % 2 == 0), geom_mode=gm, drift_mode=(j + 3), norm_class=KC.NORM_CLASSES[i % 6], classes=(KC.TPL_CLASSES if i % 5 == 4 else None),
+                           n_eq_dim=(i % 11 == 5 and v in ("Simple", "Ordinary", "Detrended")),
                            var_scale=([1e-10, 1e8, 1e-13][(i // 7) % 3] if i % 7 == 3 else None)))
     # option cells of the base class: functional drift kind x number of external drifts x unbiased, cycled over
     # geometries, exact / cond_err kinds, inverse routines, chunk sizes and mesh types (random inside gen_spec)
@@ -92,6 +93,20 @@ def run(ctx, only=None):
             n = 140 if ctx.tier == "quick" else 2400
             for spec in specs(rng, ctx.tier, n):
                 one_case(ctx, drv, rng, spec, stats)
+            # memory layouts / containers of every array argument (structured with unequal axes and unstructured)
+            lay = [("ExtDrift", "plain", 2, "structured"), ("Krige", "plain", 3, "structured"), ("ExtDrift", "time", None, "unstructured"),
+                   ("Universal", "plain", 2, "structured"), ("Krige", "latlon", None, "structured"), ("Ordinary", "plain", 3, "unstructured")]
+            for r_ in range(1 if ctx.tier == "quick" else 4):
+                for v_, g_, d_, mt_ in lay:
+                    sp_ = KC.gen_spec(rng, variant=v_, geo=g_, dim=d_, tier="quick", allow_norm=False, n=7, m=5,
+                                      cell=((1, 1 + r_ % 2, True) if v_ == "Krige" else None))
+                    sp_["mesh_type"] = mt_
+                    if mt_ == "unstructured" and len(sp_["pos"]) and len(set(map(len, sp_["pos"]))) != 1:
+                        sp_["pos"] = KC.gen_points(rng, sp_["geo"], len(sp_["cond_pos"]), 5)
+                    KC.probe_layouts(ctx, rng, sp_, stats)
+            # cross-object interference (shared default instances, registries written at run time)
+            for r_ in range(1 if ctx.tier == "quick" else 3):
+                KC.probe_interference(ctx, rng, stats, ctx.tier)
             # the cond_err guard (exact=True excludes explicit measurement errors) on every route / value class
             for v_ in (("Simple", "ExtDrift") if ctx.tier == "quick" else KC.VARIANTS + ["Krige"]):
                 KC.probe_cond_err_guard(ctx, drv, rng, KC.gen_spec(rng, variant=v_, geo="plain", dim=2, tier="quick", allow_norm=False, n=6, m=3), stats)
